@@ -2,9 +2,12 @@
   KB.Sys — the interleaving transition system of the write path: any number of client requests
   (create / update / delete, arbitrary expected revisions), each a small state machine whose steps
   are the atomic actions of pkg/backend/txn.go and creator/naive.go (one `tso.Deal`, one engine
-  batch commit, one engine snapshot read, one store into the per-revision slot), the retry loop's
-  rewrite, and the sequencer (`collectStorageWriteEvents`) which consumes slot `committed + 1`.
-  Steps of different requests interleave arbitrarily; a schedule is a list of actions.
+  batch commit, one engine snapshot read, one store into the per-revision slot), the retry loop
+  (`retry()` / `overwrite()` of retry/retry.go, itself two steps: its read of the key's latest value
+  together with the `tso.Deal` that follows, and its compare-and-swap commit together with the
+  notification of the sequencer and the pop of its queue), and the sequencer
+  (`collectStorageWriteEvents`) which consumes slot `committed + 1`.
+  Steps of different requests and of the retry loop interleave arbitrarily; a schedule is a list of actions.
   Ghost state (never read by a step): the log of successful commits and of finished requests.
 -/
 import KB.Backend
@@ -71,6 +74,15 @@ structure WLog where
   exp : Expect
   deriving Repr, DecidableEq
 
+/-- The retry loop between the two storage calls of `overwrite()`: the queue node it is repairing
+(`node.event`, captured at the top of `retry()`), the fresh revision it took from the TSO and the value it
+read (and is about to rewrite). -/
+structure RetryPc where
+  w : WEvent
+  rev : Nat
+  val : Bytes
+  deriving Repr, DecidableEq
+
 structure G where
   cfg : Cfg := {}
   store : Store := []
@@ -79,6 +91,8 @@ structure G where
   /-- filled slots of `watchEventsRingBuffer`, keyed by revision -/
   slots : List WEvent := []
   retryQ : List WEvent := []
+  /-- the retry loop is between its read and its commit (none: it is at the top of `retry()`) -/
+  retryPc : Option RetryPc := none
   clients : List Client := []
   /-- events handed to the watch pipeline, in order (ghost view of ring + watchChan) -/
   emitted : List Event := []
@@ -92,7 +106,9 @@ inductive Action where
   | begin (id : Nat) (kind : ReqKind)
   | step (id : Nat) (f : Fault)
   | seq                              -- sequencer consumes slot committed+1 if filled
-  | retry (f : Fault)                -- retry loop processes the head of its queue
+  | retry (f : Fault)                -- retry loop processes the head of its queue: `retryRead`, then `retryCommit f`
+  | retryRead                        -- retry loop: read the latest value of the head's key (and deal a revision)
+  | retryCommit (f : Fault)          -- retry loop: commit the rewrite, tell the sequencer, pop / keep the head
   deriving Repr, DecidableEq
 
 def G.client (g : G) (id : Nat) : Option Client := g.clients.find? (·.id == id)
@@ -268,27 +284,43 @@ def stepSeq (g : G) : G :=
     let em := if w.valid then g.emitted ++ [mkEvent w] else g.emitted
     { g with committed := w.rev, dealt := max g.dealt w.rev, retryQ := rq, emitted := em }
 
-/-- The retry loop processes the head of its queue (`retry` + `overwrite`): if the key's newest
-version is still the queued revision, rewrite it at a fresh revision under CAS and report it. The head
-is popped only when the rewrite succeeded or failed its condition. -/
-def stepRetry (g : G) (f : Fault) : G :=
-  match g.retryQ with
-  | [] => g
-  | w :: rest =>
-    match getInternal g.cfg g.store w.key 0 with
-    | none => { g with retryQ := rest }
-    | some (val, modRev) =>
-      if val.length == 0 || modRev != w.rev then { g with retryQ := rest }
-      else
-        let rev := g.dealt + 1
-        let g := { g with dealt := rev }
-        let flag : Bytes := if isTomb val then [0] else []
-        let (r, st) := doCommit g.cfg g.store
-          [BOp.cas (idxKey w.key) (be8 rev ++ flag) (be8 w.rev ++ flag), BOp.put (encode w.key rev) val] f
-        -- the head is popped only when the rewrite succeeded or failed its condition (fixes 35be7da, f99b060)
-        let g := { g with store := st, retryQ := if r == CommitRes.ok || r.isCas then rest else w :: rest }
-        let g := if applied r f then g.logWrite w.key rev (if isTomb val then none else some val) (.rev w.rev) else g
-        g.notify { w with rev := rev, valid := r == .ok, uncertain := r == .uncertain }
+/-- First half of one `retry()` (up to `tso.Deal` in `overwrite`): read the latest value of the head's key
+through the backend getter. No version, or the newest version is not the queued revision any more: nothing to
+repair, the head is popped. Otherwise a fresh revision is taken from the TSO and the loop goes on to its commit
+(`retryPc`). From here until `retryCommit` other requests may run. -/
+def stepRetryRead (g : G) : G :=
+  match g.retryPc with
+  | some _ => g
+  | none =>
+    match g.retryQ with
+    | [] => g
+    | w :: rest =>
+      match getInternal g.cfg g.store w.key 0 with
+      | none => { g with retryQ := rest }
+      | some (val, modRev) =>
+        if val.length == 0 || modRev != w.rev then { g with retryQ := rest }
+        else { g with dealt := g.dealt + 1, retryPc := some { w := w, rev := g.dealt + 1, val := val } }
+
+/-- Second half: commit `[CAS(revKey, new, prev), Put(objKey_new, val)]`, report the new revision to the
+sequencer (valid iff the commit succeeded; `uncertain` iff its outcome is unknown) and pop the head iff the
+rewrite succeeded or failed its condition (a changed key); a storage error / unknown outcome keeps it
+(fixes 35be7da, f99b060). -/
+def stepRetryCommit (g : G) (f : Fault) : G :=
+  match g.retryPc with
+  | none => g
+  | some p =>
+    let w := p.w
+    let flag : Bytes := if isTomb p.val then [0] else []
+    let (r, st) := doCommit g.cfg g.store
+      [BOp.cas (idxKey w.key) (be8 p.rev ++ flag) (be8 w.rev ++ flag), BOp.put (encode w.key p.rev) p.val] f
+    let g := { g with store := st, retryPc := none,
+                      retryQ := if r == CommitRes.ok || r.isCas then g.retryQ.drop 1 else g.retryQ }
+    let g := if applied r f then g.logWrite w.key p.rev (if isTomb p.val then none else some p.val) (.rev w.rev) else g
+    g.notify { w with rev := p.rev, valid := r == .ok, uncertain := r == .uncertain }
+
+/-- One whole `retry()` without anything in between (a retry loop that is already between its two steps just
+finishes). -/
+def stepRetry (g : G) (f : Fault) : G := stepRetryCommit (stepRetryRead g) f
 
 def act (g : G) : Action → G
   | .begin id kind =>
@@ -300,6 +332,8 @@ def act (g : G) : Action → G
     | some c => stepClient g c f
   | .seq => stepSeq g
   | .retry f => stepRetry g f
+  | .retryRead => stepRetryRead g
+  | .retryCommit f => stepRetryCommit g f
 
 def run (g : G) (sched : List Action) : G := sched.foldl act g
 
